@@ -3,9 +3,10 @@ package p19
 
 import (
 	"encoding/json"
-	"os"
 	"fmt"
+	"os"
 	"reflect"
+	"strings"
 	"sync"
 	"testing"
 
@@ -129,6 +130,18 @@ func complete(mr *multiRun, budget int) []sim.Outcome {
 	return outs
 }
 
+// userEffects lists the user actions that took effect, without their positions.
+func userEffects(r *sim.Run) []string {
+	var out []string
+	for _, l := range r.UserLog {
+		if i := strings.Index(l, " "); i >= 0 {
+			l = l[i+1:]
+		}
+		out = append(out, l)
+	}
+	return out
+}
+
 func coarse(r *sim.Run) map[string]any {
 	f := r.FinalState()
 	if ro, ok := f["rollout"].(map[string]any); ok {
@@ -191,6 +204,12 @@ func runInterleaved(t vlib.TB, c multiCase) (together int) {
 		}
 		so := solo.runs[i].Complete(2500)
 		if !so.Terminal {
+			continue
+		}
+		// (a user action that falls into a listed finding's input class at one moment and not at
+		// another is skipped in one run only: no verdict then)
+		if !reflect.DeepEqual(userEffects(solo.runs[i]), userEffects(mr.runs[i])) {
+			vlib.Class(chkInter, "differential-skipped-user-actions-diverged")
 			continue
 		}
 		a, b := coarse(solo.runs[i]), coarse(mr.runs[i])
